@@ -65,7 +65,7 @@ SPEC = {
                   "of initial value and the increments whose cell CAS succeeded <= increments begun; survivors that "
                   "returned have nothing pending, a killed process at most its last increment), "
                   "C04_failures_classified (a call fails only for its own empty or over-long name, in the "
-                  "stale-mapping class, or at the model's 4 GiB bound: the cycle guards, writeEntryAt's, extend's and "
+                  "stale-mapping class, or because the reservation would pass 4 GiB (errCorrupt of fix 633eed3): the cycle guards, writeEntryAt's, extend's and "
                   "the corrupt-limit tests never fire), C04_nonblocking (a potential depending only "
                   "on the file and the process's own locals strictly decreases with each own step unless the call "
                   "completes, is raised by another process's step only if that step is a successful CAS and then by at "
@@ -85,9 +85,9 @@ SPEC = {
                   "instrumented code: they execute inside the step of the preceding atomic operation (the model's "
                   "macro_step), so the correspondence suite samples only those interleavings; the THEOREMS cover the "
                   "finer interleavings where they are separate steps. File-system calls are assumed to succeed "
-                  "(their own errors are outside C04). Offsets beyond 2^32 - pageSize are outside the model: a process "
-                  "that would reserve there stops with FRange (uint32 wrap-around of a > 4 GiB counter file is not "
-                  "modelled). The nonblocking bound per foreign successful CAS depends on the "
+                  "(their own errors are outside C04). A reservation whose page end does not fit 32 bits fails with errCorrupt as in the "
+                  "code since fix 633eed3 (FRange); below that no arithmetic of the code wraps, so the model computes "
+                  "on unbounded numbers. The nonblocking bound per foreign successful CAS depends on the "
                   "chain length (a retry re-walks the chain); no bound on the number of foreign CASes is claimed "
                   "(lock-freedom, not wait-freedom). survivor_not_failed is REFUTED, not proved: a survivor can get "
                   "errCorrupt from the duplicate walk (FBeyond) or after ten remaps (FTries) because of what other "
@@ -102,7 +102,6 @@ SPEC = {
         "by the raw scan of the harness after every step",
         "names are identified with numbers, the hash and the length of a name are arbitrary functions (bucket, "
         "nlen)",
-        "file offsets stay below 2^32 - pageSize (otherwise the model stops the reserving process: FRange)",
         "init_ok: the initial file is well formed (in particular no linked or reserved record has an empty name; "
         "possibly with abandoned regions of earlier, killed, runs); "
         "processes start by opening it",
